@@ -164,6 +164,7 @@ let () =
         print_endline "fin"
       | "enter" :: _ -> print_endline "enter OK"
       | "leave" :: _ -> print_endline "leave OK"
+      | "sleep" :: _ -> print_endline "sleep"
       | "destroy" :: _ ->
         (match run ODestroy with RStatus s -> print_endline ("destroy " ^ status_s s ^ allocs_line !prev_st !st true "destroy" 0) | _ -> print_endline "destroy STUCK")
       | "create" :: s :: _ ->
